@@ -3084,9 +3084,48 @@ def run_ecies(ctx):
 
 # ---- ellswift: impl / generators/run (correspondence with Model/C16/EllSwift.lean) ----------------------
 # ell.xswiftec <curve> <u> <t> -> ok <x> ; ell.xswiftec_inv <curve> <x> <u> <case 0..7> -> ok <t> | ok None
+# toy curves y^2 = x^3 + b over F_p, p = 3 (mod 4), as (p, b, G, n, h): the first two have no point of order 2
+# (-b is not a cube), the third one HAS (8 = 2^3 = -(-2)^3 ... u^3 + 8 = 0 has roots): btclib accepts it for the map
+_ELL_TOYS = {"toy19b2": (19, 2), "toy43b7": (43, 7), "toy19b8": (19, 8)}
+_ELL_TOY_CURVES: dict = {}
+
+
+def _ell_toy(name):
+    """(Curve, driver token) of a toy curve: generator of the largest prime order found by brute force"""
+    if name not in _ELL_TOY_CURVES:
+        from btclib.curves.curve import Curve
+        p_, b_ = _ELL_TOYS[name]
+        pts = [(x, y) for x in range(p_) for y in range(1, p_) if (y * y - x**3 - b_) % p_ == 0]
+        order = len(pts) + 1 + sum(1 for x in range(p_) if (x**3 + b_) % p_ == 0)
+        n_ = max(q for q in range(2, order + 1) if order % q == 0 and all(q % d for d in range(2, q)))
+        for g in pts:
+            # (the cofactor argument is what Curve's own Hasse estimate expects, which on so small a field need not be
+            # the true one; the map reads p, a and b only)
+            for h_ in (order // n_, 1, 2, 3, 4, 5, 6):
+                try:
+                    ec = Curve(p_, 0, b_, g, n_, h_, weakness_check=False)
+                except Exception:  # noqa: BLE001  (this point's order is not n_, or another cofactor is expected)
+                    continue
+                _ELL_TOY_CURVES[name] = (ec, f"toy:{p_}:0:{b_}:{g[0]}:{g[1]}:{n_}:{h_}")
+                break
+            if name in _ELL_TOY_CURVES:
+                break
+    return _ELL_TOY_CURVES[name]
+
+
+def _ell_curve(tok):
+    if tok in CURVES:
+        return CURVES[tok]
+    for name in _ELL_TOYS:
+        ec, t = _ell_toy(name)
+        if t == tok:
+            return ec
+    raise KeyError(tok)
+
+
 def _impl_ell(t) -> str:
     try:
-        ec = CURVES[t[1]]
+        ec = _ell_curve(t[1])
         if t[0] == "ell.xswiftec" and len(t) == 4:
             u, tt = int(t[2]), int(t[3])
             return _call(lambda: str(ellswift._xswiftec_var(u, tt, ec)))
@@ -3098,25 +3137,79 @@ def _impl_ell(t) -> str:
     return "bad-op"
 
 
+def _o_ell_curve(w):
+    """on a curve btclib offers the map on: every t the inverse answers maps back to x (x an x-coordinate, u != 0),
+    and decode_var(encode_var(Q)) == Q"""
+    from btclib.curves.curve import _is_x_coordinate_var
+    ec, _tok = _ell_toy(w["curve"])
+    ellswift._constants(ec)  # the curve is accepted for the map
+    bad, tot, first = 0, 0, None
+    for x in range(ec.p):
+        if not _is_x_coordinate_var(x, ec):
+            continue
+        for u in range(1, ec.p):
+            for c in range(8):
+                t = ellswift._xswiftec_inv_var(x, u, c, ec)
+                if t is None:
+                    continue
+                tot += 1
+                got = ellswift._xswiftec_var(u, t, ec)
+                if got != x:
+                    bad += 1
+                    first = first or f"_xswiftec_inv_var({x}, {u}, {c}) = {t} but _xswiftec_var({u}, {t}) = {got}"
+    if bad:
+        return False, f"y^2 = x^3 + {ec._b} over F_{ec.p}: {bad} of {tot} answered preimages do not map back; first: {first}"
+    return True, f"y^2 = x^3 + {ec._b} over F_{ec.p}: {tot} preimages"
+
+
+ORACLES.update({"ellswift.small_curve_roundtrip": _o_ell_curve})
+
+
 def run_ell(ctx):
     rng = ctx.rng
     fw, inv = [], []
-    edge = [0, 1, 2, P - 1, P, P + 1, 2**256 - 1]
+    names = ["secp256k1", "secp256k1", "secp256k1", "secp224k1", "secp192k1", "secp160k1"]  # p = 5 (mod 8) included
     for i in range(ctx.n(60, 1500)):
+        name = names[i % len(names)]
+        p_ = CURVES[name].p
+        edge = [0, 1, 2, p_ - 1, p_, p_ + 1, 2**256 - 1]
         u = rng.choice(edge) if rng.random() < 0.15 else rng.getrandbits(256)
         t = rng.choice(edge) if rng.random() < 0.15 else rng.getrandbits(256)
-        fw.append(f"ell.xswiftec secp256k1 {u} {t}")
-        x = mult(g_prv(rng))[0] if rng.random() < 0.7 else rng.getrandbits(256)
+        fw.append(f"ell.xswiftec {name} {u} {t}")
+        x = mult(g_scalar(rng, CURVES[name]), CURVES[name].G, CURVES[name])[0] if rng.random() < 0.7 else rng.getrandbits(256)
         if rng.random() < 0.1:
-            x = (-x - u) % P  # the other branch's guard
+            x = (-x - u) % p_  # the other branch's guard
         for c in range(8):
-            line = f"ell.xswiftec_inv secp256k1 {x} {u} {c}"
+            line = f"ell.xswiftec_inv {name} {x} {u} {c}"
             inv.append(line)
             out = impl(line)
             if out.startswith("ok ") and out != "ok None":  # the forward map on what the inverse answered
-                fw.append(f"ell.xswiftec secp256k1 {u} {out[3:]}")
+                fw.append(f"ell.xswiftec {name} {u} {out[3:]}")
+    for toy in _ELL_TOYS:  # small fields: every degenerate branch (u^3 + b = 0, t = 0, r = 0, s = 0) is hit
+        ec, tok = _ell_toy(toy)
+        k = ctx.n(120, 100000)
+        for x in range(ec.p):
+            for u in range(ec.p):
+                if (x * ec.p + u) % max(1, ec.p * ec.p // k) == 0 or ctx.tier == "thorough":
+                    fw.append(f"ell.xswiftec {tok} {x} {u}")
+                    for c in range(8):
+                        inv.append(f"ell.xswiftec_inv {tok} {x} {u} {c}")
     _stream_both(ctx, "ell.xswiftec", fw)
-    _stream_both(ctx, "ell.xswiftec_inv", inv, )
+    _stream_both(ctx, "ell.xswiftec_inv", inv)
+    # the curves the Lean theorem ellswift_roundtrip_small_curves_partial is about, on the real code
+    ctx.check("ellswift.small_curve_roundtrip", {"curve": "toy19b2"})
+    ctx.check("ellswift.small_curve_roundtrip", {"curve": "toy43b7"})
+    # a curve with a point of order 2 that `_constants` accepts (a == 0, sqrt(-3) exists): the inverse used to answer
+    # t = 0 there, which the forward map reads as t = 1 -- decode_var(encode_var(Q)) != Q. Found by this oracle,
+    # repaired in /repo c67c7290 (`return t or None`); kept as a regression that must pass.
+    ctx.check("ellswift.small_curve_roundtrip", {"curve": "toy19b8"}, key="ellswift.inverse_answers_zero_t_on_2torsion_curve")
+    ec8, _ = _ell_toy("toy19b8")
+    for q in range(1, ec8.n):  # and the public pair on that curve
+        pt = mult(q, ec8.G, ec8)
+        for _ in range(ctx.n(20, 200)):
+            back = ellswift.decode_var(ellswift.encode_var(pt, ec8), ec8)
+            ctx.oracle("ellswift.small_curve_encode_decode", back == pt, f"decode_var(encode_var({pt})) = {back} on y^2=x^3+8/F_19",
+                       key="ellswift.inverse_answers_zero_t_on_2torsion_curve", witness={"q": q})
 
 def run(ctx):
     shared.validate_hashes(ctx, EXE)
